@@ -133,6 +133,65 @@ Theorem cl_data_never_exceeds : forall n r evs, r <= n ->
 Proof. intros n r evs H. exact (data_agree_never_exceeds (Some n) r evs n eq_refl H). Qed.
 
 (* ------------------------------------------------------------------ *)
+(** Request trailers ([pkawa::handle_trailer]).  A trailer NAME is an HPACK
+    literal: any byte string.  Whatever it is, a name that starts with ':' — a
+    registered pseudo-header or not — refuses the whole block … *)
+Theorem h2_pseudo_trailer_refused : forall lf ts k v,
+  In (k, v) ts -> starts_colon k = true -> accept_trailers lf ts = None.
+Proof.
+  intros lf ts k v Hin Hc. unfold accept_trailers.
+  assert (existsb trailer_refused ts = true) as E.
+  { apply existsb_exists. exists (k, v). split; [exact Hin|]. unfold trailer_refused. cbn [fst]. rewrite Hc. reflexivity. }
+  rewrite E. reflexivity.
+Qed.
+
+Lemma trailers_all_ok ts : existsb trailer_refused ts = false -> forallb field_ok ts = true.
+Proof.
+  induction ts as [|[k v] t IH]; intros H; [reflexivity|].
+  cbn [existsb] in H. apply orb_false_elim in H. destruct H as [Hh Ht].
+  unfold trailer_refused in Hh. cbn [fst snd] in Hh. apply orb_false_elim in Hh. destruct Hh as [Hc Hi].
+  cbn [forallb]. rewrite (valid_regular_field_ok k v Hi Hc). exact (IH Ht).
+Qed.
+
+Lemma forallb_filter {A} (p q : A -> bool) l : forallb p l = true -> forallb p (filter q l) = true.
+Proof.
+  induction l as [|a l IH]; intros H; [reflexivity|]. cbn [forallb] in H. apply andb_prop in H. destruct H as [Ha Hl].
+  cbn [filter]. destruct (q a); [cbn [forallb]; rewrite Ha; exact (IH Hl)|exact (IH Hl)].
+Qed.
+
+(** … and every field of an ACCEPTED block is a well-formed HTTP/1.1 field
+    (non-empty token name, value without CR / LF / NUL / control byte) … *)
+Theorem h2_accepted_trailers_well_formed : forall lf ts out,
+  accept_trailers lf ts = Some out -> forallb field_ok out = true.
+Proof.
+  intros lf ts out H. unfold accept_trailers in H.
+  destruct (existsb trailer_refused ts) eqn:E; [discriminate H|]. injection H as <-.
+  destruct lf; [reflexivity|]. unfold trailers_h2. apply forallb_filter. exact (trailers_all_ok ts E).
+Qed.
+
+(** … so that the strict reader reads, in what is written after the last chunk,
+    exactly those fields and stops exactly at the end of the section: nothing a
+    client puts in a trailer name or value moves the end of the request. *)
+Theorem h2_trailers_end_the_request : forall lf ts out rest,
+  accept_trailers lf ts = Some out ->
+  read_headers (S (List.length out)) (serialize_trailers out ++ rest) = Some (map trimv out, rest).
+Proof.
+  intros lf ts out rest H. unfold serialize_trailers. rewrite app_assoc_reverse.
+  exact (header_block_roundtrip out rest (h2_accepted_trailers_well_formed lf ts out H)).
+Qed.
+
+(** Keeping an HTTP/1.1 backend connection for the next request
+    ([ConnectionH1::end_stream]): a parked connection never has an unfinished
+    request on it — the backend is not waiting for body bytes that the next
+    request's head would supply. *)
+Theorem parked_connection_has_no_unfinished_request : forall x,
+  park x = true -> request_unfinished x = false.
+Proof.
+  intros x H. unfold park in H. apply andb_prop in H. destruct H as [_ H].
+  unfold request_unfinished. rewrite H. reflexivity.
+Qed.
+
+(* ------------------------------------------------------------------ *)
 (** Non-vacuity *)
 Definition ex_hs : list header :=
   [ (B ":method", B "POST"); (B ":scheme", B "https"); (B ":path", B "/a?b=c"); (B ":authority", B "example.com");
@@ -177,4 +236,38 @@ Example data_agree_nonvacuous :
   data_agree (Some 5) 0 [Data 2 false; Data 3 true] = Complete 5 /\
   data_agree (Some 5) 0 [Data 2 false; Data 2 true] = Reset /\
   data_agree (Some 5) 0 [Data 6 false] = Reset /\ data_agree (Some 5) 0 [Data 4 false; Trailers] = Reset.
+Proof. vm_compute. repeat split; reflexivity. Qed.
+
+(** trailers: an ordinary block is written and read back; a ':'-name carrying a
+    whole request is refused (the reviewer's mutation narrowed that test to the
+    five registered names); what it would have written is not a message a strict
+    reader accepts (one that skips the line ":x" reads a second request). *)
+Definition smuggling_name : list N :=
+  B ":x" ++ crlf ++ crlf ++ B "GET /smuggled HTTP/1.1" ++ crlf ++ B "host: localhost" ++ crlf ++ B "x-tail".
+
+Example trailers_nonvacuous :
+  accept_trailers false [(B "grpc-status", B "0"); (B "x-forwarded-for", B "6.6.6.6"); (B "x-t", B "a b")] =
+    Some [(B "grpc-status", B "0"); (B "x-t", B "a b")] /\
+  accept_trailers true [(B "grpc-status", B "0")] = Some [] /\
+  accept_trailers false [(B "x-t", B "1"); (smuggling_name, B "1")] = None /\
+  accept_trailers false [(B ":path", B "/")] = None /\
+  accept_trailers false [(B "X-T", B "1")] = None /\
+  strict_h1 (B "POST / HTTP/1.1" ++ crlf ++ B "Host: x" ++ crlf ++ B "Transfer-Encoding: chunked" ++ crlf ++ crlf ++
+             B "0" ++ crlf ++ serialize_trailers [(B "x-t", B "1"); (smuggling_name, B "1")]) = None /\
+  option_map (@List.length request)
+    (strict_h1 (B "POST / HTTP/1.1" ++ crlf ++ B "Host: x" ++ crlf ++ B "Transfer-Encoding: chunked" ++ crlf ++ crlf ++
+                B "0" ++ crlf ++ serialize_trailers [(B "x-t", B "1"); (B "grpc-status", B "0")])) = Some 1%nat.
+Proof. vm_compute. repeat split; reflexivity. Qed.
+
+(** the park rule: the defect fixed in /repo (the request side was not consulted)
+    and what it let happen on the connection: the next request read as a body *)
+Example park_nonvacuous :
+  park (mkx true true false true true) = true /\
+  park (mkx true true false false true) = false /\
+  park (mkx true true false true false) = false /\
+  park (mkx true true true true true) = false /\
+  option_map (fun x => (rq_target (fst x), rq_body (fst x), snd x))
+    (read_request 50 (B "POST /first HTTP/1.1" ++ crlf ++ B "Host: x" ++ crlf ++ B "Content-Length: 29" ++ crlf ++ crlf ++
+                      B "GET /second HTTP/1.1" ++ crlf ++ B "Host: x" ++ crlf ++ crlf)) =
+    Some (B "/first", B "GET /second HTTP/1.1" ++ crlf ++ B "Host: x", crlf ++ crlf).
 Proof. vm_compute. repeat split; reflexivity. Qed.
